@@ -3,7 +3,6 @@ package otto
 import (
 	"regexp"
 	"strconv"
-	"time"
 )
 
 var (
@@ -23,14 +22,11 @@ var (
 		kind:  valueNumber,
 		value: 0,
 	}
+	// 15.9.5: the Date prototype object is a Date whose time value is NaN.
 	prototypeValueDate = dateObject{
-		epoch: 0,
-		isNaN: false,
-		time:  time.Unix(0, 0).UTC(),
-		value: Value{
-			kind:  valueNumber,
-			value: 0,
-		},
+		epoch: -1,
+		isNaN: true,
+		value: NaNValue(),
 	}
 	prototypeValueRegExp = regExpObject{
 		regularExpression: regexp.MustCompile("(?:)"),
